@@ -27,7 +27,7 @@ ENTRY = {
         "AGV.C06.fixer_expanded_range",
         "AGV.Verify.fixed_is_cli_edit",
     ],
-    "units": ["edit_range", "interactive", "frontends_edit"],
+    "units": ["edit_range", "interactive", "frontends_edit", "c06_cli"],
     "trusted_base": [
         "modelled, not verified (shallow model of plumbing): the Replacer/Matcher trait dispatch reached by Diff::generate, Node::replace, AstGrep::replace, TestSnapshot::generate, RewriteData::from_node_match; diagnostic_to_code_action; compute_all_fixes (sort + overlap filter); accept_edit's splice; process_diffs/apply_rewrite (C06/C18)",
         "which code base the harness is linked against (pinned / with FIX_C08) is decided by behaviour on three minimal inputs (probe_variant); every other case is checked against the matching variant of the model",
